@@ -51,7 +51,11 @@ def gen_param(rng, safe):
   if k < 0.6: return {"kind": "str", "v": rng.choice(["abc", "x1", "mode_fast", "A", "long_" * 9])}
   if k < 0.7: return {"kind": "bits_type", "n": rng.choice([1, 8, 32, 100])}
   if k < 0.8: return {"kind": "tuple", "v": [gen_param(rng, safe) for _ in range(rng.randrange(1, 4))]}
-  if k < 0.85: return {"kind": "list", "v": [{"kind": "int", "v": rng.randrange(100)} for _ in range(rng.randrange(1, 12))]}
+  if k < 0.83: return {"kind": "list", "v": [{"kind": "int", "v": rng.randrange(100)} for _ in range(rng.randrange(1, 12))]}
+  if k < 0.85:
+    # message types handed over in a container ( Router([ReqType, RespType]) )
+    st = lambda: {"kind": "struct_type", "name": "PT%d" % rng.randrange(3), "fields": [["a", rng.choice([3, 4])], ["b", 8]]}
+    return {"kind": rng.choice(["list", "tuple"]), "v": [st()] + [st() if rng.random() < 0.5 else {"kind": "int", "v": rng.randrange(4)} for _ in range(rng.randrange(0, 3))]}
   if k < 0.9: return {"kind": "struct_type", "name": "PT%d" % rng.randrange(3), "fields": [["a", rng.choice([3, 4])], ["b", 8]]}
   if k < 0.93: return {"kind": "bits_value", "n": rng.choice([5, 8, 8]), "v": rng.choice([0, 1, 3, 3, rng.randrange(32)])}
   if k < 0.97: return {"kind": "struct_value", "name": "SVal", "fields": [["a", 4], ["b", 8]], "v": [rng.choice([0, 1, 2, 3]), rng.choice([0, 1, 2, 255])]}   # a bitstruct INSTANCE (e.g. a reset value)
@@ -95,6 +99,14 @@ def gen_param_design(rng, odd=False):
           b_ = base[pos]
           # values whose str() coincides although they differ: same digits at another width, Bits value vs int
           if b_.get("kind") == "bits_value" and rng.random() < 0.7: nv = dict(b_, n=5 if b_["n"] == 8 else 8)
+          elif "struct_type" in json.dumps(b_) and rng.random() < 0.8:
+            # the same (container of) bitstruct class(es) by name, ONE field of one class a bit wider / narrower
+            nv = json.loads(json.dumps(b_))
+            def flip(d, done=[False]):
+              if d.get("kind") == "struct_type" and not done[0]: d["fields"][0][1] = 7 - d["fields"][0][1]; done[0] = True
+              for x in d.get("v", []) if isinstance(d.get("v"), list) else []:
+                if isinstance(x, dict): flip(x, done)
+            flip(nv)
           elif b_.get("kind") == "int" and 10 <= b_["v"] < 100 and rng.random() < 0.5: nv = {"kind": "bits_value", "n": 8, "v": int(str(b_["v"]), 16)}
           if nv == base[pos]: continue
           v[pos] = nv
@@ -119,6 +131,11 @@ def gen_param_design(rng, odd=False):
       if rng.random() < 0.5:
         # ... or instances of two struct TYPES whose values print alike (field widths 8 / 5: two hex digits each)
         b = {"kind": "struct_value", "name": "SVal", "fields": [["a", 4], ["b", 5]], "v": list(a["v"])}
+    if rng.random() < 0.3:
+      # two bitstruct TYPES of one name that differ in one field width, handed over inside a container
+      kd = rng.choice(["list", "tuple"])
+      mk = lambda wa: {"kind": kd, "v": [{"kind": "struct_type", "name": "PT0", "fields": [["a", wa], ["b", 8]]}, {"kind": "int", "v": 1}]}
+      a, b = mk(3), mk(4)
     if rng.random() < 0.35:
       # parameter values that differ but HASH alike in CPython: hash(-1) == hash(-2)
       a, b = {"kind": "int", "v": -1}, {"kind": "int", "v": -2}
